@@ -226,6 +226,8 @@ parseinit(struct scope *s, struct type *t)
 	p.last = &p.init;
 	if (t->incomplete && t->kind != TYPEARRAY)
 		error(&tok.loc, "initializer specified for incomplete type");
+	if (t->kind == TYPEFUNC)
+		error(&tok.loc, "initializer specified for function type");
 	if (t->kind == TYPEARRAY && t->prop & PROPVM)
 		error(&tok.loc, "initializer specified for variable length array type");
 	for (;;) {
